@@ -1,1 +1,294 @@
-/-! Property theorems for C06 (none yet). -/
+import MirVerif.Model.AbiCallee
+import MirVerif.Lemmas.AbiCallee
+import MirVerif.Gen.C06_Regs
+/-!
+# C06 — MIR functions are correct C-ABI callees and preserve the caller's machine state
+(x86-64 System V)
+
+Property theorems only.  Models: `MirVerif/Model/AbiCallee.lean`; they are tied to /repo on every
+run by `translate/c06_extract.py` (register tables, constants) and by the correspondence checks of
+`checks/c06.py` (sentinel probes through an assembly trampoline, gcc-compiled callers, direct calls
+of the va_arg builtins, decoded prologues).
+
+Statements that are FALSE for the code as it is are kept visible: each has a `…_counterexample`
+(a concrete witness, checked by `decide`) and a `…_partial` theorem with the explicit extra
+hypothesis; the correspondence check replays every witness on the real generated code.
+-/
+namespace MirVerif.C06
+open MirVerif.AbiCallee
+
+/-! ## 1. Incoming arguments of generated code (`target_machinize`) -/
+
+/- FALSE today (defect #11, callee side):
+   theorem callee_meets_sysv (ps) (hwf : allWf ps) (S : Int) :
+     (calleePlace ps).map (·.map (MPiece.resolve (S - 8))) = (sysvIncoming ps).map (·.map (Piece.resolve S))
+   `mem_size += 16` for a `long double` without first rounding `mem_size` up to 16. -/
+
+/-- witness: seven integers, then a long double — the psABI puts it at offset 16, the code reads offset 8 -/
+theorem callee_meets_sysv_counterexample :
+    ∃ ps, allWf ps = true ∧ (calleePlace ps).map (·.map MPiece.toPiece) ≠ sysvIncoming ps :=
+  ⟨[.int, .int, .int, .int, .int, .int, .int, .ld], by decide⟩
+
+/-- For every parameter list (any length, any mix, blocks of every case) in which no `long double`
+needs alignment padding, every eightbyte of every parameter is read from exactly the register or the
+absolute stack address the psABI assigns to it, given `rbp = S - 8` after the prologue (`S` = `rsp` at
+entry). -/
+theorem callee_meets_sysv_partial (ps : List PTy) (hwf : allWf ps = true)
+    (hld : ldAligned .init ps = true) (S : Int) :
+    (calleePlace ps).map (·.map (MPiece.resolve (S - 8)))
+      = (sysvIncoming ps).map (·.map (Piece.resolve S)) :=
+  (machWalk_sysv S ps .init .init ⟨rfl, rfl, rfl⟩ hwf hld).1
+
+example : allWf [.int, .dbl, .blk 1 12, .flt, .int, .int, .int, .int, .int, .blk 3 16, .blk 0 32, .ld, .int, .dbl] = true
+    ∧ ldAligned .init [.int, .dbl, .blk 1 12, .flt, .int, .int, .int, .int, .int, .blk 3 16, .blk 0 32, .ld, .int, .dbl] = true := by
+  decide
+
+/-! ## 2. The interpreter shim (`_MIR_get_interp_shim` + `interp` + `va_block_arg_builtin`) -/
+
+/- FALSE today:
+   theorem shim_meets_sysv (ps) (hwf : allWf ps) : shimPlace ps = sysvIncoming ps
+   (a) `va_block_arg_builtin` case 3/4 advances `fp_offset` by 8 instead of 16;
+   (b) case 2 never checks that SSE registers are left. -/
+
+theorem shim_meets_sysv_counterexample_mixed :
+    ∃ ps, allWf ps = true ∧ shimPlace ps ≠ sysvIncoming ps :=
+  ⟨[.int, .blk 3 16, .dbl], by decide⟩
+
+theorem shim_meets_sysv_counterexample_sse :
+    ∃ ps, allWf ps = true ∧ shimPlace ps ≠ sysvIncoming ps :=
+  ⟨[.dbl, .dbl, .dbl, .dbl, .dbl, .dbl, .dbl, .dbl, .blk 2 16], by decide⟩
+
+/-- For every parameter list without mixed-class blocks in which every SSE-class block finds its
+registers, the values the interpreter receives are read from the psABI locations (`long double`
+included: the C compiler's `va_arg` aligns it).  Also: the `va_list` handed to `va_start` afterwards is in
+the psABI state. -/
+theorem shim_meets_sysv_partial (ps : List PTy) (hwf : allWf ps = true)
+    (hsafe : blkSafe .init ps = true) :
+    shimPlace ps = sysvIncoming ps ∧ VaRel (vaStartShim ps) (sysvWalk .init ps).2 :=
+  shimWalk_sysv ps .shimInit .init ⟨rfl, rfl, rfl, by decide, by decide⟩ hwf hsafe
+
+example : allWf [.int, .ld, .blk 2 16, .int, .int, .int, .int, .int, .int, .ld, .blk 1 9, .blk 0 40] = true
+    ∧ blkSafe .init [.int, .ld, .blk 2 16, .int, .int, .int, .int, .int, .int, .ld, .blk 1 9, .blk 0 40] = true := by
+  decide
+
+/-! ## 3. `va_start` in generated code -/
+
+/- FALSE today (defect #12 and relatives):
+   theorem va_start_meets_sysv (ps) : (vaStartGen ps).toVaList.norm = sysvVaStart ps
+   `gp_offset += 8; if (gp_offset >= 48) mem_offset += 8` counts the sixth register argument as a
+   stack argument; the floating-point branch tests `gp_offset >= 176` (never true) instead of
+   `fp_offset`; block parameters are always counted as memory, with their unrounded size. -/
+
+/-- six named integer parameters: overflow area 8 bytes too high, the first variadic argument is skipped -/
+theorem va_start_counterexample_six_ints :
+    (vaStartGen [.int, .int, .int, .int, .int, .int]).toVaList.norm
+      ≠ sysvVaStart [.int, .int, .int, .int, .int, .int] := by decide
+
+/-- nine named doubles: the ninth is a stack argument the expansion does not count -/
+theorem va_start_counterexample_nine_fp :
+    (vaStartGen [.dbl, .dbl, .dbl, .dbl, .dbl, .dbl, .dbl, .dbl, .dbl]).toVaList.norm
+      ≠ sysvVaStart [.dbl, .dbl, .dbl, .dbl, .dbl, .dbl, .dbl, .dbl, .dbl] := by decide
+
+/-- a block passed in registers is counted as memory -/
+theorem va_start_counterexample_block_in_regs :
+    (vaStartGen [.int, .blk 1 16]).toVaList.norm ≠ sysvVaStart [.int, .blk 1 16] := by decide
+
+/-- a memory block whose size is not a multiple of 8 -/
+theorem va_start_counterexample_block_size :
+    (vaStartGen [.int, .blk 0 20]).toVaList.norm ≠ sysvVaStart [.int, .blk 0 20] := by decide
+
+/-- With fewer than six integer-class and at most eight SSE-class named parameters and only plain
+memory blocks (any number of `long double`s), the three fields stored by the expansion are exactly
+the psABI's. -/
+theorem va_start_meets_sysv_partial (ps : List PTy) (hok : vaStartOK ps = true) :
+    (vaStartGen ps).toVaList = sysvVaStart ps := by
+  simp only [vaStartOK, Bool.and_eq_true, decide_eq_true_eq] at hok
+  obtain ⟨⟨hi, hf⟩, hb⟩ := hok
+  have h := vaStart_fold ps ⟨0, 48, 0⟩ .init rfl rfl rfl (by decide)
+    (by simpa [SysV.init] using hi) (by simpa [SysV.init] using hf) hb
+  obtain ⟨h1, h2, h3, _, _⟩ := h
+  simp only [vaStartGen, VaSt.toVaList, sysvVaStart, h1, h2, h3]
+
+example : vaStartOK [.int, .dbl, .ld, .blk 0 32, .int, .int, .dbl, .ld, .int, .rblk] = true := by decide
+
+/-- The candidate repair (`fixes/C06-va-start.patch`, modelled by `vaStartFixed`) is right for every
+named-parameter list the argument loop itself handles correctly: the `_partial` hypothesis shrinks to
+the one of `callee_meets_sysv_partial`. -/
+theorem va_start_fixed_meets_sysv (ps : List PTy) (hwf : allWf ps = true)
+    (hld : ldAligned .init ps = true) : vaStartFixed ps = sysvVaStart ps := by
+  obtain ⟨h1, h2, h3⟩ := (machWalk_sysv 0 ps .init .init ⟨rfl, rfl, rfl⟩ hwf hld).2
+  simp only [vaStartFixed, sysvVaStart, h1, h2, h3, Nat.mul_comm]
+
+example : vaStartFixed [.int, .int, .int, .int, .int, .int, .blk 1 16, .dbl, .blk 0 20]
+    = sysvVaStart [.int, .int, .int, .int, .int, .int, .blk 1 16, .dbl, .blk 0 20] := by decide
+
+/-! ## 4. Fetching variadic arguments (`va_arg_builtin`, `va_block_arg_builtin`) -/
+
+/- FALSE today:
+   theorem va_arg_walk (named tail) : walking `tail` with va_arg from the psABI va_list state visits
+   exactly the psABI locations of the caller's variadic arguments.
+   Fails for `long double` after an odd number of stack words (no alignment of overflow_arg_area),
+   for mixed-class blocks (fp_offset += 8) and SSE blocks without registers left. -/
+
+theorem va_arg_walk_counterexample_mixed :
+    ((vaArgWalk (sysvVaStart [.int]) [.blk 3 16, .dbl]).1.map (·.map Src.toPiece))
+      ≠ (sysvWalk (sysvWalk .init [.int]).2 [.blk 3 16, .dbl]).1 := by decide
+
+theorem va_arg_walk_counterexample_sse :
+    ((vaArgWalk (sysvVaStart [.int]) [.dbl, .dbl, .dbl, .dbl, .dbl, .dbl, .dbl, .dbl, .blk 2 16]).1.map
+        (·.map Src.toPiece))
+      ≠ (sysvWalk (sysvWalk .init [.int]).2 [.dbl, .dbl, .dbl, .dbl, .dbl, .dbl, .dbl, .dbl, .blk 2 16]).1 := by
+  decide
+
+theorem va_arg_walk_counterexample_ld :
+    ((vaArgWalk (sysvVaStart [.int]) [.int, .int, .int, .int, .int, .int, .ld]).1.map (·.map Src.toPiece))
+      ≠ (sysvWalk (sysvWalk .init [.int]).2 [.int, .int, .int, .int, .int, .int, .ld]).1 := by decide
+
+/-- Starting from a `va_list` in the psABI state for what the named parameters consumed, iterating
+`va_arg` / `va_block_arg` over a variadic tail of any length fetches every eightbyte from exactly the
+location where the psABI makes the caller put it (register-save-area slot of the right register, or
+the right stack offset) — provided no `long double` needs padding, SSE blocks find registers and no
+mixed-class block occurs. -/
+theorem va_arg_walk_partial (v : VaList) (s : SysV) (tail : List PTy) (hR : VaRel v s)
+    (hwf : allWf tail = true) (hsafe : blkSafe s tail = true) (hld : ldAligned s tail = true) :
+    (vaArgWalk v tail).1.map (·.map Src.toPiece) = (sysvWalk s tail).1 :=
+  (vaArgWalk_sysv tail v s hR hwf hsafe hld).1
+
+/-- generated code end to end: `va_start` after `named`, then the walk -/
+theorem vararg_gen_partial (named tail : List PTy) (hn : allWf named = true) (hok : vaStartOK named = true)
+    (hwf : allWf tail = true) (hsafe : blkSafe (sysvWalk .init named).2 tail = true)
+    (hld : ldAligned (sysvWalk .init named).2 tail = true) :
+    (vaArgWalk (vaStartGen named).toVaList tail).1.map (·.map Src.toPiece)
+      = (sysvWalk (sysvWalk .init named).2 tail).1 := by
+  rw [va_start_meets_sysv_partial named hok]
+  have hb := sysvWalk_bounds named .init hn (by decide) (by decide)
+  exact va_arg_walk_partial _ _ tail ⟨rfl, rfl, rfl, hb.1, hb.2⟩ hwf hsafe hld
+
+/-- interpreter end to end -/
+theorem vararg_shim_partial (named tail : List PTy) (hn : allWf named = true)
+    (hns : blkSafe .init named = true) (hwf : allWf tail = true)
+    (hsafe : blkSafe (sysvWalk .init named).2 tail = true)
+    (hld : ldAligned (sysvWalk .init named).2 tail = true) :
+    (vaArgWalk (vaStartShim named) tail).1.map (·.map Src.toPiece)
+      = (sysvWalk (sysvWalk .init named).2 tail).1 :=
+  va_arg_walk_partial _ _ tail (shim_meets_sysv_partial named hn hns).2 hwf hsafe hld
+
+example : allWf [.int, .dbl] = true ∧ vaStartOK [.int, .dbl] = true
+    ∧ allWf [.int, .dbl, .blk 1 16, .int, .int, .int, .int, .blk 2 8, .ld, .int, .blk 0 24] = true
+    ∧ blkSafe (sysvWalk .init [.int, .dbl]).2 [.int, .dbl, .blk 1 16, .int, .int, .int, .int, .blk 2 8, .ld, .int, .blk 0 24] = true
+    ∧ ldAligned (sysvWalk .init [.int, .dbl]).2 [.int, .dbl, .blk 1 16, .int, .int, .int, .int, .blk 2 8, .ld, .int, .blk 0 24] = true := by
+  decide
+
+/-! ## 5. Frame (`target_make_prolog_epilog`) -/
+
+/-- entry `rsp ≡ 8 (mod 16)` ⇒ `rsp ≡ 0 (mod 16)` after the prologue, in both frame shapes, with and
+without the vararg register save area, for any number of slots and saved registers -/
+theorem frame_aligned (f : FrameIn) (S : Int) (hS : S % 16 = 8) (hj : f.jret = false) :
+    f.spAfter S % 16 = 0 := by
+  unfold FrameIn.spAfter FrameIn.spSub FrameIn.blockSize FrameIn.serviceArea roundUp16 regSaveAreaSize
+  rw [hj]
+  cases f.vararg <;> simp <;> omega
+
+/-- the save slots of two different callee-saved registers do not overlap -/
+theorem frame_saved_pairwise (f : FrameIn) (S : Int) (i j : Nat) (hij : i ≠ j) :
+    f.saveAddr S i + 8 ≤ f.saveAddr S j ∨ f.saveAddr S j + 8 ≤ f.saveAddr S i := by
+  unfold FrameIn.saveAddr
+  cases f.keepFp <;> simp <;> omega
+
+/-- every save slot lies inside the frame: at or above the new `rsp`, below the saved frame pointer /
+padding word under the return address, and (vararg) below the register save area -/
+theorem frame_saved_inside (f : FrameIn) (S : Int) (i : Nat) (hi : i < f.saved.length) (hj : f.jret = false) :
+    f.spAfter S ≤ f.saveAddr S i
+    ∧ f.saveAddr S i + 8 ≤ S - 8 - (if f.vararg then (regSaveAreaSize : Int) else 0) := by
+  unfold FrameIn.saveAddr FrameIn.spAfter FrameIn.spSub FrameIn.bpSavedRegOffset FrameIn.blockSize
+    FrameIn.serviceArea FrameIn.slotsSize FrameIn.savedSize roundUp16 regSaveAreaSize
+  rw [hj]
+  cases f.keepFp <;> cases f.vararg <;> simp <;> omega
+
+/-- save slots and pseudo-register stack slots are disjoint -/
+theorem frame_saved_vs_slots (f : FrameIn) (S : Int) (i k : Nat) (hi : i < f.saved.length)
+    (hk : k < f.nslots) (hj : f.jret = false) :
+    f.saveAddr S i + 8 ≤ f.slotAddr S k ∨ f.slotAddr S k + 8 ≤ f.saveAddr S i := by
+  unfold FrameIn.saveAddr FrameIn.slotAddr FrameIn.spSub FrameIn.bpSavedRegOffset FrameIn.blockSize
+    FrameIn.serviceArea FrameIn.slotsSize FrameIn.savedSize roundUp16 regSaveAreaSize
+  rw [hj]
+  cases f.keepFp <;> cases f.vararg <;> simp <;> omega
+
+/-- every stack slot lies inside the frame too -/
+theorem frame_slots_inside (f : FrameIn) (S : Int) (k : Nat) (hk : k < f.nslots) (hj : f.jret = false) :
+    f.spAfter S ≤ f.slotAddr S k
+    ∧ f.slotAddr S k + 8 ≤ S - 8 - (if f.vararg then (regSaveAreaSize : Int) else 0) := by
+  unfold FrameIn.slotAddr FrameIn.spAfter FrameIn.spSub FrameIn.blockSize
+    FrameIn.serviceArea FrameIn.slotsSize FrameIn.savedSize roundUp16 regSaveAreaSize
+  rw [hj]
+  cases f.keepFp <;> cases f.vararg <;> simp <;> omega
+
+/-- `prologue_saves_used`: the epilogue reloads every saved register from the slot the prologue stored it to -/
+theorem restore_eq_save (f : FrameIn) (S : Int) (i : Nat) : f.restoreAddr S i = f.saveAddr S i := rfl
+
+/-- vararg prologue: the n-th integer argument register is stored at `reg_save_area + 8 n`, the low
+half of `xmm j` at `reg_save_area + 48 + 16 j`, where `reg_save_area = rbp - 176` is what `va_start`
+stores — the layout `rsaPiece` assumes -/
+theorem reg_save_area_layout (f : FrameIn) (S : Int) (hv : f.vararg = true) (hj : f.jret = false)
+    (n : Nat) :
+    f.regSaveGprAddr S n = FrameIn.regSaveAreaAddr S + 8 * n
+    ∧ f.regSaveXmmAddr S n = FrameIn.regSaveAreaAddr S + 48 + 16 * n := by
+  unfold FrameIn.regSaveGprAddr FrameIn.regSaveXmmAddr FrameIn.regSaveAreaAddr FrameIn.spAfter
+    FrameIn.spSub FrameIn.serviceArea regSaveAreaSize
+  rw [hv, hj]
+  simp
+  omega
+
+example : ∃ f : FrameIn, f.jret = false ∧ f.vararg = true ∧ 2 < f.saved.length ∧ 3 < f.nslots :=
+  ⟨⟨true, true, false, 7, [3, 12, 13, 14, 15]⟩, by decide⟩
+
+/-! ## 6. alloca -/
+
+/-- the rounded size covers the request, is a multiple of 16, wastes less than 16 bytes, and keeps a
+16-byte aligned stack pointer aligned -/
+theorem alloca_aligned (n : Nat) (sp : Int) (hsp : sp % 16 = 0) :
+    n ≤ allocaRound n ∧ allocaRound n % 16 = 0 ∧ allocaRound n < n + 16
+    ∧ (sp - allocaRound n) % 16 = 0 := by
+  unfold allocaRound
+  omega
+
+example : (4096 : Int) % 16 = 0 := by decide
+
+/-! ## 7. Callee-saved registers (generated table) -/
+
+/-- among the sixteen general registers `target_call_used_hard_reg_p` (as extracted from the source
+on this run) spares exactly rbx and r12–r15; together with the frame lemmas (rbp reloaded from its
+slot, rsp = entry rsp at `ret`) this is the psABI set {rbx, rbp, rsp, r12–r15} -/
+theorem callee_saved_set :
+    ((List.range 16).filter fun hr => !Gen.C06.callUsedP hr).map (Gen.C06.hardRegNames.getD · "?")
+      = ["BX", "R12", "R13", "R14", "R15"] := by decide
+
+/-- no SSE or x87 register is treated as callee-saved (none is, in the psABI) -/
+theorem no_vector_callee_saved :
+    ((List.range Gen.C06.hardRegNames.length).filter fun hr => decide (16 ≤ hr) && !Gen.C06.callUsedP hr) = [] := by
+  decide
+
+/-! ## 8. Bridges: extracted constants and tables equal the model's -/
+
+theorem gen_regSaveAreaSize : Gen.C06.regSaveAreaSize = regSaveAreaSize := by decide
+theorem gen_startSpFromBp : Gen.C06.startSpFromBp = startSpFromBp := by decide
+
+/-- `get_int_arg_reg` yields rdi, rsi, rdx, rcx, r8, r9 (in this order) and nothing else;
+`get_fp_arg_reg` yields xmm0–xmm7 -/
+theorem gen_arg_regs :
+    Gen.C06.intArgRegs.map (Gen.C06.hardRegNames.getD · "?") = ["DI", "SI", "DX", "CX", "R8", "R9"]
+    ∧ Gen.C06.fpArgRegs.map (Gen.C06.hardRegNames.getD · "?")
+        = ["XMM0", "XMM1", "XMM2", "XMM3", "XMM4", "XMM5", "XMM6", "XMM7"] := by decide
+
+theorem gen_arg_reg_counts (n : Nat) :
+    intArgRegP n = decide (n < Gen.C06.intArgRegs.length)
+    ∧ fpArgRegP n = decide (n < Gen.C06.fpArgRegs.length) := by
+  simp [intArgRegP, fpArgRegP, Gen.C06.intArgRegs, Gen.C06.fpArgRegs]
+
+/-- the vararg prologue stores the n-th integer argument register at offset 8 n and xmm j at 48 + 16 j -/
+theorem gen_reg_save_order :
+    Gen.C06.regSaveOrder
+      = (List.range 6).map (fun n => (8 * n, Gen.C06.intArgRegs.getD n 99, false))
+        ++ (List.range 8).map (fun j => (48 + 16 * j, Gen.C06.fpArgRegs.getD j 99, true)) := by decide
+
+end MirVerif.C06
